@@ -130,6 +130,7 @@ func worker(readyc <-chan *ScheduledJob, donec chan<- jobResult) {
 		currentJob  *ScheduledJob
 		exitCleanly bool
 	)
+	verifWorkerPoint(verifWorkerStart, donec, nil)
 	defer func() {
 		if exitCleanly {
 			return
@@ -142,6 +143,7 @@ func worker(readyc <-chan *ScheduledJob, donec chan<- jobResult) {
 		res := jobResult{Job: j}
 		currentJob = j
 
+		verifWorkerPoint(verifWorkerGot, donec, j)
 		if err := j.ctx.Err(); err != nil {
 			// Don't run if context already cancelled.
 			res.Err = err
@@ -152,6 +154,7 @@ func worker(readyc <-chan *ScheduledJob, donec chan<- jobResult) {
 			res.Err = j.run(j.ctx)
 		}
 		currentJob = nil
+		verifWorkerPoint(verifWorkerPost, donec, j)
 		donec <- res
 	}
 	exitCleanly = true
@@ -322,6 +325,7 @@ func (s *Scheduler) Enqueue(ctx context.Context, j Job) *ScheduledJob {
 		run:  j.Run,
 		deps: j.Dependencies,
 	}
+	verifPoint(verifEnqueueSend, s, pj, 0, 0, 0)
 	s.enqueuec <- pj // panics if closed
 	return pj
 }
@@ -405,6 +409,7 @@ func (s *Scheduler) run(emitter Emitter, freq time.Duration) {
 			readyc = nil
 		}
 
+		verifPoint(verifLoopTop, s, nil, ready.Len(), ongoing, pending)
 		select {
 		case readyc <- next:
 			// Remove from the ready queue only if we scheduled in
@@ -412,12 +417,14 @@ func (s *Scheduler) run(emitter Emitter, freq time.Duration) {
 			ready.Remove(nextEl)
 
 			ongoing++
+			verifPoint(verifDispatch, s, next, ongoing, ready.Len(), pending)
 
 		case job, ok := <-enqueuec:
 			// Wait was called and the enqueue channel was closed.
 			// Make sure we never hit this branch of the select
 			// again. (A nil channel never resolves.)
 			if !ok {
+				verifPoint(verifEnqClosed, s, nil, ready.Len(), ongoing, pending)
 				enqueuec = nil
 				break
 			}
@@ -446,9 +453,11 @@ func (s *Scheduler) run(emitter Emitter, freq time.Duration) {
 			} else {
 				waiting++
 			}
+			verifPoint(verifEnq, s, job, job.remaining, pending, waiting)
 
 		case res := <-s.donec:
 			job := res.Job
+			verifResultPoint(s, job, res.Err)
 			job.done = true
 
 			pending--
@@ -460,6 +469,7 @@ func (s *Scheduler) run(emitter Emitter, freq time.Duration) {
 				// Record the failure and return early if the job
 				// failed.
 				if !s.continueOnError {
+					verifPoint(verifLoopExit, s, job, pending, ongoing, 1)
 					s.err = err
 					return
 				}
@@ -483,12 +493,14 @@ func (s *Scheduler) run(emitter Emitter, freq time.Duration) {
 					ready.PushBack(consumer)
 				}
 			}
+			verifPoint(verifResultDone, s, job, waiting, ready.Len(), pending)
 
 		case <-tickerC:
 			// If emitter is nil, tickerC will be a nil channel that
 			// never resolves.
 			// Note: Phab marks this line as untested, but we believe this is
 			// tested (GM-876).
+			verifPoint(verifTick, s, nil, pending, ready.Len(), waiting)
 			emitter.Emit(
 				State{
 					Pending:     pending,
@@ -503,6 +515,7 @@ func (s *Scheduler) run(emitter Emitter, freq time.Duration) {
 		// If all enqueued jobs have been finished and no new enqueues
 		// are allowed, we can exit.
 		if pending == 0 && enqueuec == nil {
+			verifPoint(verifLoopExit, s, nil, pending, ongoing, 0)
 			return
 		}
 	}
@@ -516,7 +529,9 @@ func (s *Scheduler) run(emitter Emitter, freq time.Duration) {
 //
 // No new jobs may be enqueued once Wait is called.
 func (s *Scheduler) Wait(ctx context.Context) error {
+	verifPoint(verifWaitClose, s, nil, 0, 0, 0)
 	close(s.enqueuec) // disallow new Enqueues
+	verifPoint(verifWaitClosed, s, nil, 0, 0, 0)
 	select {
 	case <-ctx.Done():
 		return ctx.Err()
